@@ -58,6 +58,9 @@ class Feed:
         specs.append({'kind': 'ident', 'icao': 'c00150', 'callsign': 'NOPOS2'})
         specs.append({'kind': 'ident', 'icao': 'cffff0', 'callsign': 'NOPOS3'})
         specs.append({'kind': 'vel', 'icao': 'cffff0', 'east': 10, 'north': 10, 'vrate': 64})
+        # aircraft first (and only) heard through DF18 (TIS-B / ADS-R): they count like any other
+        specs.append({'kind': 'df18ident', 'icao': 'c00300', 'callsign': 'TISB', 'cf': 2})
+        specs.append({'kind': 'df18ident', 'icao': 'c00301', 'callsign': 'ADSR', 'cf': 6})
         ls = e4lib.mkfeed(specs)
         self.lines = [(x + '\n').encode() for x in ls]
         self.bytes = b''.join(self.lines)
@@ -73,6 +76,12 @@ class Feed:
                 {'kind': 'pos', 'icao': 'c00200', 'lat': LAT0 + 1.5 * D, 'lon': LON0 - 1.5 * D, 'alt': 21000, 'odd': 1},
                 {'kind': 'pos', 'icao': self.icao['S1'], 'lat': LAT0 + GEOM['S1'][0] * D - 0.01, 'lon': LON0 + GEOM['S1'][1] * D, 'alt': 11000, 'odd': 0},
                 {'kind': 'pos', 'icao': self.icao['S1'], 'lat': LAT0 + GEOM['S1'][0] * D - 0.01, 'lon': LON0 + GEOM['S1'][1] * D, 'alt': 11000, 'odd': 1}]
+        w1 = self.icao['W1']
+        for odd in (0, 1, 0):
+            late.append({'kind': 'pos', 'icao': w1, 'lat': LAT0 - 0.5 * D, 'lon': LON0 - 1.5 * D, 'alt': 16000, 'odd': odd})
+        self.geom_late = dict(GEOM)
+        self.geom_late['W1'] = (-0.5, -1.5)
+        self.geom_late['LATE'] = (1.5, -1.5)
         self.late_lines = [(x + '\n').encode() for x in e4lib.mkfeed(late)]
         self.late_bytes = b''.join(self.late_lines)
         self.table_late = e4lib.feed2table(self.bytes + self.late_bytes)
@@ -146,7 +155,8 @@ def compile_script(fd, kind, cfg, seq, delivery, alphabet, filler=True, touchscr
                                                             'filler' if filler else 'nofiller', delivery,
                                                             ','.join(seq) or 'none')
     return {'binary': 'radar', 'oracle': 'c18', 'key': key, 'argv': argv, 'size': [cols, rows], 'filler': filler,
-            'steps': steps, 'kind': kind, 'labels': labels, 'expect': expect, 'expect_after': expect_after, 'events': list(seq), 'touchscreen': touchscreen,
+            'steps': steps, 'kind': kind, 'labels': labels, 'expect': expect, 'expect_after': expect_after,
+            'geom_late': ({k: list(v) for k, v in fd.geom_late.items()} if kind == 'aircraft-late' else None), 'events': list(seq), 'touchscreen': touchscreen,
             'geom': {n: list(GEOM[n]) for n in ORDER},
             'expected': 'Airplanes tab == vh feed2table cells; Stats totals == added/max; map: north above, east right, 2d twice '
                         'as far as d; view controls leave the Airplanes tab unchanged; Enter restores the initial map'}
@@ -160,15 +170,16 @@ def table_region(lines):
     return None
 
 
-def geom_of(label):
-    return GEOM[label.upper()] if label.upper() in GEOM else None
+def geom_of(label, geom=None):
+    g = geom or GEOM
+    return tuple(g[label.upper()]) if label.upper() in g else None
 
 
-def check_order(labels_pos, strict_gap, probs, tag):
+def check_order(labels_pos, strict_gap, probs, tag, geom=None):
     """pairwise: north-of => smaller row, east-of => larger column (strict when |delta| >= 1 d), equal => within 1"""
-    names = [n for n in labels_pos if geom_of(n) is not None and not isinstance(labels_pos[n][0], str)]
+    names = [n for n in labels_pos if geom_of(n, geom) is not None and not isinstance(labels_pos[n][0], str)]
     for a, b in itertools.combinations(names, 2):
-        (la, na), (lb, nb) = geom_of(a), geom_of(b)
+        (la, na), (lb, nb) = geom_of(a, geom), geom_of(b, geom)
         (ca, ra), (cb, rb) = labels_pos[a], labels_pos[b]
         if la != lb:
             north, south = (ra, rb) if la > lb else (rb, ra)
@@ -339,6 +350,19 @@ def judge(script, obs):
             if e4screen.tab_title_count(air1['lines']) != e4screen.tab_title_count(air0['lines']):
                 probs.append('air1:title-changed')
         m2 = snaps.get('map2')
+        if script.get('geom_late') and m2:
+            # after reset the map shows the late traffic too: the moved aircraft and the new one where they are NOW
+            gl = {k: tuple(v) for k, v in script['geom_late'].items()}
+            mp2 = e4screen.parse_map(m2['lines'], list(script['labels']) + ['LATE'])
+            if mp2 is None:
+                probs.append('map2:no-map')
+            else:
+                pos2 = {n: p for n, p in mp2['labels'].items() if not isinstance(p[0], str)}
+                facts['labels_after_late'] = len(pos2)
+                for need in ('LATE', 'W1', 'W2'):
+                    if need not in pos2:
+                        probs.append('map2:label-missing-after-late(%s)' % need)
+                check_order(pos2, True, probs, 'map2', gl)
         if script.get('expect_after') is None and m0 and m2 and m0['lines'] != m2['lines']:
             diff = [i for i, (a, b) in enumerate(zip(m0['lines'], m2['lines'])) if a != b]
             probs.append('map2:reset-differs-from-initial(lines %s)' % diff[:4])
